@@ -99,10 +99,18 @@ def run(rep):
     _canaries(rep, sub, acc)
     part_catalogue(rep)
     part_fuzz(rep)
+    # unknown question types: TypeCell.tla's near misses of the type-cell grammar must be refused
+    from harness.props import _typecell
+
+    _typecell.part(rep, PROP)
 
 
 def replay(rep, case):
     c = case["case"]
+    if c.get("typecell"):
+        from harness.props import _typecell
+
+        return _typecell.replay(rep, PROP, c)
     job = {"wb": c["wb"], "fmt": c.get("fmt") or "dict", "shapes": c.get("shapes"), "tag": c.get("tag")}
     outs = corpus.run_forms([job])
     sub, acc, rejected = _rp.validate(rep, PROP, outs, "replay")
